@@ -140,6 +140,16 @@ func (hookC09) decoded(x *fleetExec, e engine.Event, nd *knode, m *kmsg, d sk, d
 			x.fail("pb-roundtrip-content", sig, "the rebuilt sketch differs from the one that was converted: "+diff, m.snap.String(), ds.String())
 		}
 		x.st.ProbeIf(dm.TaintedAny(), "arbitrary-float-weights-compared-bit-for-bit")
+		if dm.TaintedAny() && m.parts == 1 && m.spec.Store != refmodel.Paginated {
+			// every index arrives exactly once (a paginated source may list an index as page weight and as
+			// unit entries, which the target adds up in its own order): the weights are the sender's, bit for bit
+			if d := refmodel.DiffBins(m.snap.Pos.Bins, ds.Pos.Bins); d != "" {
+				x.fail("pb-roundtrip-content", sig, "positive bins of the rebuilt sketch differ from the converted one's: "+d, m.snap.String(), ds.String())
+			}
+			if d := refmodel.DiffBins(m.snap.Neg.Bins, ds.Neg.Bins); d != "" {
+				x.fail("pb-roundtrip-content", sig, "negative bins of the rebuilt sketch differ from the converted one's: "+d, m.snap.String(), ds.String())
+			}
+		}
 	}
 }
 
